@@ -277,7 +277,7 @@ def _transform_case(draw, tier):
   case = {'mesh': mesh, 'grid': cfg, 'mode': mode, 'put': draw(st.booleans()),
           'nodal_fill': draw(st.sampled_from([0.0, 1.0])), 'seed': draw(st.integers(0, 2 ** 16))}
   if mode == 'dense':
-    levels = draw(st.sampled_from([0, 1, 2, 3, 4, 5, 6, 7, 8]))
+    levels = draw(st.sampled_from([0, 0, 1, 1, 2, 3, 4, 5, 6, 7, 8]))   # 0 = 2-D field without a level axis
     case['levels'] = levels
     case['inputs'] = draw(st.lists(_input_st(['x', 'x2'], max(levels, 1), cfg, cfg['L'] - 1), min_size=1, max_size=2))
   return case
@@ -925,7 +925,7 @@ _LEAF_KINDS = ('modal3d', 'nodal3d', 'surface_modal', 'surface_nodal', 'modal2d'
 
 @st.composite
 def _helper_case(draw, tier):
-  mesh = draw(st.one_of(st.none(), _mesh_st()))
+  mesh = draw(st.sampled_from([None, None] + MESHES))   # None: no mesh attached, helpers are plain identities
   cfg = draw(_grid_cfg(4))
   leaves = draw(st.lists(st.sampled_from(_LEAF_KINDS), min_size=1, max_size=5))
   return {'mesh': mesh, 'grid': cfg, 'levels_mult': draw(st.integers(1, 2)), 'leaves': leaves,
@@ -1002,7 +1002,7 @@ _W = {'quick': 600.0, 'thorough': 3000.0}   # safety net only (the machine is sh
 
 SUBCHECKS = [
     Subcheck('step_every_mesh', run_step, cases=_every_mesh_step_cases,
-             shards={'quick': 2, 'thorough': 4}, wall=_W, env=ENV, weight=11,
+             shards={'quick': 3, 'thorough': 4}, wall=_W, env=ENV, weight=11,
              rule='mesh has >= 2 devices and the layout is padded; enumerated meshes (thorough: all factorisations), uneven levels'),
     Subcheck('step', run_step, strategy=_step_case, examples={'quick': 9, 'thorough': 96},
              shards={'quick': 3, 'thorough': 6}, wall=_W, env=ENV, weight=10,
@@ -1011,9 +1011,9 @@ SUBCHECKS = [
              shards={'quick': 2, 'thorough': 5}, wall=_W, env=ENV, weight=9,
              rule='mesh has >= 2 devices and the layout is padded'),
     Subcheck('transforms_every_mesh', run_transforms, cases=_every_mesh_cases,
-             shards={'quick': 2, 'thorough': 4}, wall=_W, env=ENV, weight=8,
+             shards={'quick': 3, 'thorough': 4}, wall=_W, env=ENV, weight=8,
              rule='mesh has >= 2 devices and the layout is padded; exhaustive over all (z,x,y) factorisations and all unit vectors'),
-    Subcheck('transforms', run_transforms, strategy=_transform_case, examples={'quick': 20, 'thorough': 200},
+    Subcheck('transforms', run_transforms, strategy=_transform_case, examples={'quick': 16, 'thorough': 200},
              shards={'quick': 2, 'thorough': 4}, wall=_W, env=ENV, weight=7,
              rule='mesh has >= 2 devices and the layout is padded'),
     Subcheck('transforms_float32', run_transforms_f32, strategy=_transform_case, examples={'quick': 4, 'thorough': 60},
